@@ -1,4 +1,1201 @@
-//! stores: not built yet.
-pub fn run(args: &vh_common::Args) {
-    vh_common::unknown(args)
+//! Stores (C08, C09): the SQLite `LogStore`, `OperationStore`, `TopicStore` and `CursorStore`
+//! implementations of `p2panda-store` against spec/Stores.
+//!
+//! * `replay`: every line exported by TLC (`MC_Stores.tla`) is a command sequence with the
+//!   expected return value of every command and the expected result of every query on the last
+//!   state.  The commands are executed on a real in-memory `SqliteStore` (real signed operations,
+//!   real CBOR, real SQL) and everything is compared.
+//! * `record`: seeded random long command sequences on the real store; one event per command
+//!   (arguments + return value) followed by one `Queries` event with the results of a few
+//!   queries; `Trace_Stores.tla` validates them.
+//!
+//! A panic of the store is data: it is a violation of "never panics".
+use std::collections::{BTreeMap, BTreeSet};
+use std::future::Future;
+
+use p2panda_core::logs::LogHeights;
+use p2panda_core::{Body, Cursor, Hash, Header, Operation, SeqNum, SigningKey, VerifyingKey};
+use p2panda_store::cursors::CursorStore;
+use p2panda_store::logs::LogStore;
+use p2panda_store::operations::OperationStore;
+use p2panda_store::topics::TopicStore;
+use p2panda_store::{SqliteError, SqliteStore, Transaction};
+use serde::{Deserialize, Serialize};
+use vh_common::{Args, Outcome, Rng, TraceWriter, Value, catch, json, read_ndjson, unknown};
+
+pub fn run(args: &Args) {
+    match args.mode.as_str() {
+        "replay" => replay(args),
+        "record" => record(args),
+        _ => unknown(args),
+    }
+}
+
+// ------------------------------------------------------------------------------------------
+// Concrete world: abstract names -> real keys, operations, log ids, topics
+
+/// Non-trivial header extension: exercises the header round trip and lets header lengths vary.
+#[derive(Clone, Debug, PartialEq, Eq, Serialize, Deserialize)]
+struct Ext {
+    pad: String,
+    tag: u64,
+}
+
+type Op = Operation<Ext>;
+type LogName = String;
+type TopicName = String;
+
+fn signing_key(name: &str) -> SigningKey {
+    let h = Hash::digest(format!("vh-stores author {name}"));
+    SigningKey::from_bytes(h.as_bytes())
+}
+
+/// Deterministic, well-formed operation for an abstract descriptor (payload hash iff
+/// payload_size > 0, backlink iff seq_num > 0, as the header encoding requires).  The id string is
+/// mixed into the extension tag so that two descriptors never share a header (forks have the
+/// same author and seq_num).
+fn build_op(id: &str, author: &str, seq: SeqNum, pay: u32, body: bool, pad: usize) -> Op {
+    let key = signing_key(author);
+    let seed = Hash::digest(format!("vh-stores body {id}"));
+    let bytes: Vec<u8> = (0..pay as usize).map(|i| seed.as_bytes()[i % 32] ^ (i / 32) as u8).collect();
+    let body_value = Body::new(&bytes);
+    let mut header = Header::<Ext> {
+        version: 1,
+        verifying_key: key.verifying_key(),
+        signature: None,
+        payload_size: pay,
+        payload_hash: if pay > 0 { Some(body_value.hash()) } else { None },
+        seq_num: seq,
+        backlink: if seq > 0 { Some(Hash::digest(format!("vh-stores backlink {id}"))) } else { None },
+        extensions: Ext {
+            pad: "x".repeat(pad),
+            tag: u64::from_le_bytes(seed.as_bytes()[..8].try_into().expect("8 bytes")),
+        },
+    };
+    header.sign(&key);
+    Operation {
+        hash: header.hash(),
+        header,
+        body: if body { Some(body_value) } else { None },
+    }
+}
+
+#[derive(Clone)]
+struct OpInfo {
+    op: Op,
+    author: String,
+    seq: SeqNum,
+    pay: u32,
+    hdr: u32,
+}
+
+// ------------------------------------------------------------------------------------------
+// System under test: one in-memory SqliteStore on its own current-thread runtime
+
+enum Call<T> {
+    Ok(T),
+    Err(String),
+    Panic(String),
+}
+
+struct Sut {
+    rt: tokio::runtime::Runtime,
+    store: SqliteStore,
+}
+
+impl Sut {
+    fn new() -> Sut {
+        let rt = tokio::runtime::Builder::new_current_thread()
+            .enable_all()
+            .build()
+            .expect("runtime");
+        let store = rt.block_on(SqliteStore::temporary());
+        Sut { rt, store }
+    }
+
+    fn call<T>(&self, fut: impl Future<Output = Result<T, SqliteError>>) -> Call<T> {
+        match catch(|| self.rt.block_on(fut)) {
+            Ok(Ok(v)) => Call::Ok(v),
+            Ok(Err(e)) => Call::Err(e.to_string()),
+            Err(p) => Call::Panic(p),
+        }
+    }
+
+    /// Empties the three tables (cheaper than a new pool + migrations per behaviour).
+    fn clear(&self) {
+        let pool = self.store.pool().clone();
+        self.rt.block_on(async move {
+            for t in ["operations_v1", "topics_v1", "cursors_v1"] {
+                sqlx::query(&format!("DELETE FROM {t}"))
+                    .execute(&pool)
+                    .await
+                    .expect("clear table");
+            }
+        });
+    }
+}
+
+// The `_tx` query variants are observed inside the transaction of a writing command.
+#[derive(Default)]
+struct TxAsk {
+    latest: Vec<(VerifyingKey, LogName)>,
+    get: Vec<Hash>,
+}
+
+#[derive(Default)]
+struct TxObs {
+    latest: Vec<Option<Op>>,
+    get: Vec<(bool, Option<Op>)>,
+}
+
+async fn tx_observe(store: &SqliteStore, ask: &TxAsk) -> Result<TxObs, SqliteError> {
+    let mut obs = TxObs::default();
+    for (vk, log) in &ask.latest {
+        obs.latest.push(
+            <SqliteStore as LogStore<Op, VerifyingKey, LogName, SeqNum, Hash>>::get_latest_entry_tx(store, vk, log)
+                .await?,
+        );
+    }
+    for id in &ask.get {
+        let has = <SqliteStore as OperationStore<Op, Hash>>::has_operation_tx(store, id).await?;
+        let got = <SqliteStore as OperationStore<Op, Hash>>::get_operation_tx(store, id).await?;
+        obs.get.push((has, got));
+    }
+    Ok(obs)
+}
+
+/// begin; command; `_tx` observations; commit (rollback when the command failed).
+async fn in_tx<T>(
+    store: &SqliteStore,
+    ask: &TxAsk,
+    cmd: impl Future<Output = Result<T, SqliteError>>,
+) -> Result<(T, TxObs), SqliteError> {
+    let permit = store.begin().await?;
+    let result = async {
+        let v = cmd.await?;
+        let obs = tx_observe(store, ask).await?;
+        Ok::<_, SqliteError>((v, obs))
+    }
+    .await;
+    match result {
+        Ok(v) => {
+            store.commit(permit).await?;
+            Ok(v)
+        }
+        Err(e) => {
+            let _ = store.rollback(permit).await;
+            Err(e)
+        }
+    }
+}
+
+type LS = SqliteStore;
+
+async fn q_latest(s: &LS, a: &VerifyingKey, l: &LogName) -> Result<Option<Op>, SqliteError> {
+    <LS as LogStore<Op, VerifyingKey, LogName, SeqNum, Hash>>::get_latest_entry(s, a, l).await
+}
+async fn q_heights(s: &LS, a: &VerifyingKey, ls: &[LogName]) -> Result<Option<BTreeMap<LogName, SeqNum>>, SqliteError> {
+    <LS as LogStore<Op, VerifyingKey, LogName, SeqNum, Hash>>::get_log_heights(s, a, ls).await
+}
+async fn q_entries(
+    s: &LS,
+    a: &VerifyingKey,
+    l: &LogName,
+    af: Option<SeqNum>,
+    un: Option<SeqNum>,
+) -> Result<Option<Vec<(Op, Vec<u8>)>>, SqliteError> {
+    <LS as LogStore<Op, VerifyingKey, LogName, SeqNum, Hash>>::get_log_entries(s, a, l, af, un).await
+}
+async fn q_size(
+    s: &LS,
+    a: &VerifyingKey,
+    l: &LogName,
+    af: Option<SeqNum>,
+    un: Option<SeqNum>,
+) -> Result<Option<(u32, u32)>, SqliteError> {
+    <LS as LogStore<Op, VerifyingKey, LogName, SeqNum, Hash>>::get_log_size(s, a, l, af, un).await
+}
+async fn c_prune(s: &LS, a: &VerifyingKey, l: &LogName, n: SeqNum) -> Result<u64, SqliteError> {
+    <LS as LogStore<Op, VerifyingKey, LogName, SeqNum, Hash>>::prune_entries(s, a, l, &n).await
+}
+async fn q_has(s: &LS, id: &Hash) -> Result<bool, SqliteError> {
+    <LS as OperationStore<Op, Hash>>::has_operation(s, id).await
+}
+async fn q_get(s: &LS, id: &Hash) -> Result<Option<Op>, SqliteError> {
+    <LS as OperationStore<Op, Hash>>::get_operation(s, id).await
+}
+async fn c_delete_payload(s: &LS, id: &Hash) -> Result<bool, SqliteError> {
+    <LS as OperationStore<Op, Hash>>::delete_operation_payload(s, id).await
+}
+async fn q_resolve(s: &LS, t: &TopicName) -> Result<BTreeMap<VerifyingKey, Vec<LogName>>, SqliteError> {
+    <LS as TopicStore<TopicName, VerifyingKey, LogName>>::resolve(s, t).await
+}
+async fn q_cursor(s: &LS, n: &str) -> Result<Option<Cursor<VerifyingKey, LogName>>, SqliteError> {
+    <LS as CursorStore<VerifyingKey, LogName>>::get_cursor(s, n).await
+}
+
+// ------------------------------------------------------------------------------------------
+// Failure bookkeeping
+
+#[derive(Clone)]
+struct Fail {
+    property: &'static str,
+    signature: String,
+    detail: String,
+}
+
+fn fail(property: &'static str, signature: impl Into<String>, detail: impl Into<String>) -> Fail {
+    Fail {
+        property,
+        signature: signature.into(),
+        detail: detail.into(),
+    }
+}
+
+/// Unwraps a call: an `Err` from the store where the model has a value, or a panic, is a failure.
+fn settle<T>(property: &'static str, what: &str, c: Call<T>) -> Result<T, Fail> {
+    match c {
+        Call::Ok(v) => Ok(v),
+        Call::Err(e) => Err(fail(property, format!("{what}-error"), format!("{what} returned Err({e}), the model has a value"))),
+        Call::Panic(p) => Err(fail(property, format!("{what}-panics"), format!("{what} panicked: {p}"))),
+    }
+}
+
+fn opt(v: i64) -> Option<SeqNum> {
+    if v < 0 { None } else { Some(v as SeqNum) }
+}
+
+/// Compares an operation read back from the store with the one that was inserted.
+fn same_op(got: &Op, want: &OpInfo, body_stored: bool) -> Result<(), String> {
+    if got.hash != want.op.hash {
+        return Err(format!("id {} instead of {}", got.hash, want.op.hash));
+    }
+    if got.header != want.op.header {
+        return Err(format!("header differs for {}", want.op.hash));
+    }
+    let want_body = if body_stored { want.op.body.clone() } else { None };
+    if got.body != want_body {
+        return Err(format!(
+            "body {:?} instead of {:?} for {}",
+            got.body.as_ref().map(|b| b.to_bytes().len()),
+            want_body.as_ref().map(|b| b.to_bytes().len()),
+            want.op.hash
+        ));
+    }
+    Ok(())
+}
+
+fn cursor_flat(state: &LogHeights<VerifyingKey, LogName>, names: &BTreeMap<VerifyingKey, String>) -> (BTreeSet<String>, BTreeSet<(String, String, u32)>) {
+    let mut authors = BTreeSet::new();
+    let mut heights = BTreeSet::new();
+    for (a, logs) in state {
+        let an = names.get(a).cloned().unwrap_or_else(|| a.to_hex());
+        authors.insert(an.clone());
+        for (l, h) in logs {
+            heights.insert((an.clone(), l.clone(), *h));
+        }
+    }
+    (authors, heights)
+}
+
+/// `[{"a":..,"logs":[{"l":..,"h":..}]}]` (TLC MapJson) -> height map over real keys.
+fn heights_from_tlc(v: &Value) -> LogHeights<VerifyingKey, LogName> {
+    let mut m = LogHeights::new();
+    for e in v.as_array().expect("map array") {
+        let a = signing_key(e["a"].as_str().expect("a")).verifying_key();
+        let logs: &mut BTreeMap<LogName, SeqNum> = m.entry(a).or_default();
+        for l in e["logs"].as_array().expect("logs") {
+            logs.insert(l["l"].as_str().expect("l").to_string(), l["h"].as_u64().expect("h") as SeqNum);
+        }
+    }
+    m
+}
+
+// ------------------------------------------------------------------------------------------
+// spec -> impl
+
+struct LineCtx {
+    ops: BTreeMap<String, OpInfo>,
+    by_hash: BTreeMap<Hash, String>,
+}
+
+impl LineCtx {
+    fn from_universe(u: &Value) -> LineCtx {
+        let mut ops = BTreeMap::new();
+        let mut by_hash = BTreeMap::new();
+        for o in u.as_array().expect("universe") {
+            let id = o["id"].as_str().expect("id").to_string();
+            let author = o["author"].as_str().expect("author").to_string();
+            let seq = o["seq"].as_u64().expect("seq") as SeqNum;
+            let pay = o["pay"].as_u64().expect("pay") as u32;
+            let body = o["body"].as_bool().expect("body");
+            let op = build_op(&id, &author, seq, pay, body, (seq as usize * 3) % 7);
+            let hdr = op.header.to_bytes().len() as u32;
+            by_hash.insert(op.hash, id.clone());
+            ops.insert(id, OpInfo { op, author, seq, pay, hdr });
+        }
+        LineCtx { ops, by_hash }
+    }
+}
+
+#[derive(Default)]
+struct Tally {
+    commands: u64,
+    queries: u64,
+    tx_queries: u64,
+    fails: Vec<(Fail, Value)>,
+    soft: Vec<Fail>,
+    counters: BTreeMap<String, u64>,
+    distinct: BTreeSet<String>,
+    lines: u64,
+}
+
+impl Tally {
+    fn bump(&mut self, k: &str) {
+        *self.counters.entry(k.to_string()).or_insert(0) += 1;
+    }
+}
+
+/// Executes one exported behaviour; the first disagreement ends it.
+fn replay_line(sut: &Sut, line: &Value, tally: &mut Tally) -> Result<(), Fail> {
+    let ctx = LineCtx::from_universe(&line["universe"]);
+    let steps = line["steps"].as_array().expect("steps");
+    let q = &line["q"];
+    // expected presence / stored-body flag of every id in the last state
+    let mut get_exp: BTreeMap<String, (bool, bool)> = BTreeMap::new();
+    for g in q["get"].as_array().expect("get") {
+        get_exp.insert(
+            g["id"].as_str().unwrap().to_string(),
+            (g["present"].as_bool().unwrap(), g["body"].as_bool().unwrap()),
+        );
+    }
+    let latest_exp = q["latest"].as_array().expect("latest");
+
+    let mut last_obs: Option<TxObs> = None;
+    let mut last_ask_latest: Vec<(String, String)> = Vec::new();
+    let mut last_ask_get: Vec<String> = Vec::new();
+
+    for (k, st) in steps.iter().enumerate() {
+        let is_last = k + 1 == steps.len();
+        let c = st["c"].as_str().expect("c");
+        let exp_ret = st["ret"].as_u64().expect("ret");
+        // what to observe through the `_tx` variants inside the last command's transaction
+        let mut ask = TxAsk::default();
+        if is_last {
+            last_ask_latest.clear();
+            last_ask_get.clear();
+            for e in latest_exp {
+                let (a, l) = (e["a"].as_str().unwrap(), e["l"].as_str().unwrap());
+                ask.latest.push((signing_key(a).verifying_key(), l.to_string()));
+                last_ask_latest.push((a.to_string(), l.to_string()));
+            }
+            for id in get_exp.keys() {
+                ask.get.push(ctx.ops[id].op.hash);
+                last_ask_get.push(id.clone());
+            }
+        }
+        tally.commands += 1;
+        tally.bump(&format!("cmd:{c}"));
+        let store = &sut.store;
+        let (got_ret, obs): (u64, Option<TxObs>) = match c {
+            "insert" => {
+                let info = &ctx.ops[st["id"].as_str().unwrap()];
+                let log = st["l"].as_str().unwrap().to_string();
+                let r = sut.call(in_tx(store, &ask, store.insert_operation(&info.op.hash, &info.op, &log)));
+                let (v, o) = settle("C09", "insert_operation", r)?;
+                (v as u64, Some(o))
+            }
+            "delete" => {
+                let info = &ctx.ops[st["id"].as_str().unwrap()];
+                let r = sut.call(in_tx(
+                    store,
+                    &ask,
+                    <LS as OperationStore<Op, Hash>>::delete_operation(store, &info.op.hash),
+                ));
+                let (v, o) = settle("C09", "delete_operation", r)?;
+                (v as u64, Some(o))
+            }
+            "delete_payload" => {
+                let info = &ctx.ops[st["id"].as_str().unwrap()];
+                let v = settle("C09", "delete_operation_payload", sut.call(c_delete_payload(store, &info.op.hash)))?;
+                (v as u64, None)
+            }
+            "prune" => {
+                let a = signing_key(st["a"].as_str().unwrap()).verifying_key();
+                let l = st["l"].as_str().unwrap().to_string();
+                let n = st["n"].as_u64().unwrap() as SeqNum;
+                let v = settle("C08", "prune_entries", sut.call(c_prune(store, &a, &l, n)))?;
+                (v, None)
+            }
+            "associate" | "remove" => {
+                let t = st["t"].as_str().unwrap().to_string();
+                let a = signing_key(st["a"].as_str().unwrap()).verifying_key();
+                let l = st["l"].as_str().unwrap().to_string();
+                let r = if c == "associate" {
+                    sut.call(in_tx(
+                        store,
+                        &ask,
+                        <LS as TopicStore<TopicName, VerifyingKey, LogName>>::associate(store, &t, &a, &l),
+                    ))
+                } else {
+                    sut.call(in_tx(
+                        store,
+                        &ask,
+                        <LS as TopicStore<TopicName, VerifyingKey, LogName>>::remove(store, &t, &a, &l),
+                    ))
+                };
+                let (v, _) = settle("C09", c, r)?;
+                (v as u64, None)
+            }
+            "set_cursor" => {
+                let n = st["n"].as_str().unwrap();
+                let cursor = Cursor::<VerifyingKey, LogName>::new(n, heights_from_tlc(&st["v"]));
+                let r = sut.call(in_tx(
+                    store,
+                    &ask,
+                    <LS as CursorStore<VerifyingKey, LogName>>::set_cursor(store, &cursor),
+                ));
+                settle("C09", "set_cursor", r)?;
+                (0, None)
+            }
+            "delete_cursor" => {
+                let n = st["n"].as_str().unwrap().to_string();
+                let r = sut.call(in_tx(
+                    store,
+                    &ask,
+                    <LS as CursorStore<VerifyingKey, LogName>>::delete_cursor(store, &n),
+                ));
+                settle("C09", "delete_cursor", r)?;
+                (0, None)
+            }
+            other => {
+                eprintln!("unknown command {other}");
+                std::process::exit(2);
+            }
+        };
+        if got_ret != exp_ret {
+            let prop = if c == "prune" { "C08" } else { "C09" };
+            return Err(fail(
+                prop,
+                format!("{c}-return-differs"),
+                format!("step {k} ({st}): the store returned {got_ret}, the model says {exp_ret}"),
+            ));
+        }
+        if is_last {
+            last_obs = obs;
+        }
+    }
+
+    let names: BTreeMap<VerifyingKey, String> = ["a1", "a2", "a3", "a4"]
+        .iter()
+        .map(|n| (signing_key(n).verifying_key(), n.to_string()))
+        .collect();
+    let body_of = |id: &str| get_exp.get(id).map(|x| x.1).unwrap_or(false);
+
+    // a disagreement of one query does not end the behaviour: the other queries are still compared
+    macro_rules! soft {
+        ($e:expr) => {
+            match $e {
+                Ok(v) => v,
+                Err(f) => {
+                    tally.soft.push(f);
+                    continue;
+                }
+            }
+        };
+    }
+    // `_tx` observations made inside the last command's transaction (dirty reads = post state)
+    if let Some(obs) = last_obs {
+        for (i, got) in obs.latest.iter().enumerate() {
+            tally.tx_queries += 1;
+            let (a, l) = &last_ask_latest[i];
+            let exp = latest_exp
+                .iter()
+                .find(|e| e["a"].as_str() == Some(a) && e["l"].as_str() == Some(l))
+                .unwrap();
+            soft!(check_latest("get_latest_entry_tx", got, exp, &ctx, &body_of));
+        }
+        for (i, (has, got)) in obs.get.iter().enumerate() {
+            tally.tx_queries += 1;
+            let id = &last_ask_get[i];
+            soft!(check_get("has/get_operation_tx", *has, got, id, &ctx, get_exp[id]));
+        }
+    }
+
+    let store = &sut.store;
+    // latest entry of every (author, log)
+    for e in latest_exp {
+        tally.queries += 1;
+        let a = signing_key(e["a"].as_str().unwrap()).verifying_key();
+        let l = e["l"].as_str().unwrap().to_string();
+        let got = soft!(settle("C08", "get_latest_entry", sut.call(q_latest(store, &a, &l))));
+        soft!(check_latest("get_latest_entry", &got, e, &ctx, &body_of));
+    }
+    // heights of every set of logs (sorted list, and a shuffled list with a duplicate)
+    for e in q["heights"].as_array().expect("heights") {
+        let a = signing_key(e["a"].as_str().unwrap()).verifying_key();
+        let logs: Vec<LogName> = e["logs"].as_array().unwrap().iter().map(|l| l.as_str().unwrap().to_string()).collect();
+        let exp: BTreeMap<LogName, SeqNum> = e["res"]
+            .as_array()
+            .unwrap()
+            .iter()
+            .map(|r| (r["l"].as_str().unwrap().to_string(), r["h"].as_u64().unwrap() as SeqNum))
+            .collect();
+        let mut variants = vec![logs.clone()];
+        if !logs.is_empty() {
+            let mut v: Vec<LogName> = logs.iter().rev().cloned().collect();
+            v.push(logs[0].clone());
+            variants.push(v);
+        }
+        for list in variants {
+            tally.queries += 1;
+            let what = if list.is_empty() { "get_log_heights-empty-list" } else { "get_log_heights" };
+            let got = soft!(settle("C08", what, sut.call(q_heights(store, &a, &list))));
+            let ok = match &got {
+                None => exp.is_empty(),
+                Some(m) => !m.is_empty() && *m == exp,
+            };
+            if !ok {
+                soft!(Err(fail(
+                    "C08",
+                    "get_log_heights-differs",
+                    format!("get_log_heights({}, {list:?}) = {got:?}, the model says {}", e["a"], e["res"]),
+                )));
+            }
+        }
+    }
+    // ranged entries and ranged size
+    for g in q["ranges"].as_array().expect("ranges") {
+        let an = g["a"].as_str().unwrap();
+        let a = signing_key(an).verifying_key();
+        let l = g["l"].as_str().unwrap().to_string();
+        for row in g["rows"].as_array().unwrap() {
+            let af = row[0].as_i64().unwrap();
+            let un = row[1].as_i64().unwrap();
+            let n = row[2].as_u64().unwrap();
+            let pay = row[3].as_u64().unwrap();
+            let ids: Vec<&str> = row[4].as_array().unwrap().iter().map(|x| x.as_str().unwrap()).collect();
+            tally.queries += 2;
+            let got = soft!(settle("C08", "get_log_entries", sut.call(q_entries(store, &a, &l, opt(af), opt(un)))));
+            soft!(check_entries(&got, &ids, &ctx, &body_of)
+                .map_err(|d| fail("C08", "get_log_entries-differs", format!("get_log_entries({an}, {l}, {af}, {un}): {d}"))));
+            let got = soft!(settle("C08", "get_log_size", sut.call(q_size(store, &a, &l, opt(af), opt(un)))));
+            let bytes: u64 = pay + ids.iter().map(|i| ctx.ops[*i].hdr as u64).sum::<u64>();
+            // None is accepted as a rendering of the zero pair only (spec: SizeAnswerOK)
+            let ok = match got {
+                None => n == 0,
+                Some(pair) => pair == (n as u32, bytes as u32),
+            };
+            if !ok {
+                soft!(Err(fail(
+                    "C08",
+                    "get_log_size-differs",
+                    format!("get_log_size({an}, {l}, {af}, {un}) = {got:?}, the model says Some(({n}, {bytes}))"),
+                )));
+            }
+            if !ids.is_empty() {
+                tally.distinct.insert(format!("{an}|{l}|{af}|{un}|{ids:?}"));
+            }
+        }
+    }
+    // has / get of every id of the universe
+    for (id, exp) in &get_exp {
+        tally.queries += 2;
+        let h = ctx.ops[id].op.hash;
+        let has = soft!(settle("C09", "has_operation", sut.call(q_has(store, &h))));
+        let got = soft!(settle("C09", "get_operation", sut.call(q_get(store, &h))));
+        soft!(check_get("has/get_operation", has, &got, id, &ctx, *exp));
+    }
+    // topics
+    for e in q["resolve"].as_array().expect("resolve") {
+        tally.queries += 1;
+        let t = e["t"].as_str().unwrap().to_string();
+        let got = soft!(settle("C09", "resolve", sut.call(q_resolve(store, &t))));
+        let mut flat: Vec<(String, String)> = Vec::new();
+        for (a, logs) in &got {
+            for l in logs {
+                flat.push((names.get(a).cloned().unwrap_or_else(|| a.to_hex()), l.clone()));
+            }
+        }
+        let set: BTreeSet<(String, String)> = flat.iter().cloned().collect();
+        let exp: BTreeSet<(String, String)> = e["pairs"]
+            .as_array()
+            .unwrap()
+            .iter()
+            .map(|p| (p["a"].as_str().unwrap().to_string(), p["l"].as_str().unwrap().to_string()))
+            .collect();
+        if set != exp || flat.len() != set.len() {
+            soft!(Err(fail("C09", "resolve-differs", format!("resolve({t}) = {flat:?}, the model says {exp:?}"))));
+        }
+        if !exp.is_empty() {
+            tally.distinct.insert(format!("topic|{t}|{exp:?}"));
+        }
+    }
+    // cursors
+    for e in q["cursor"].as_array().expect("cursor") {
+        tally.queries += 1;
+        let n = e["n"].as_str().unwrap();
+        let got = soft!(settle("C09", "get_cursor", sut.call(q_cursor(store, n))));
+        let present = e["present"].as_bool().unwrap();
+        let ok = match &got {
+            None => !present,
+            Some(c) => present && c.name() == n && *c.state() == heights_from_tlc(&e["v"]),
+        };
+        if !ok {
+            soft!(Err(fail(
+                "C09",
+                "get_cursor-differs",
+                format!(
+                    "get_cursor({n}) = {:?}, the model says present={present} {}",
+                    got.as_ref().map(|c| (c.name().to_string(), cursor_flat(c.state(), &names))),
+                    e["v"]
+                ),
+            )));
+        }
+        if present {
+            tally.distinct.insert(format!("cursor|{n}|{}", e["v"]));
+        }
+    }
+    Ok(())
+}
+
+fn check_latest(
+    what: &str,
+    got: &Option<Op>,
+    exp: &Value,
+    ctx: &LineCtx,
+    body_of: &dyn Fn(&str) -> bool,
+) -> Result<(), Fail> {
+    let ids: Vec<&str> = exp["ids"].as_array().unwrap().iter().map(|x| x.as_str().unwrap()).collect();
+    let describe = |g: &Option<Op>| g.as_ref().map(|o| ctx.by_hash.get(&o.hash).cloned().unwrap_or_else(|| o.hash.to_hex()));
+    let bad = |d: String| fail("C08", "get_latest_entry-differs", format!("{what}({}, {}): {d}", exp["a"], exp["l"]));
+    match got {
+        None if ids.is_empty() => Ok(()),
+        None => Err(bad(format!("None, the model says one of {ids:?}"))),
+        Some(op) => {
+            let Some(id) = ctx.by_hash.get(&op.hash) else {
+                return Err(bad(format!("unknown operation {}", op.hash)));
+            };
+            if !ids.contains(&id.as_str()) {
+                return Err(bad(format!("{:?}, the model says one of {ids:?}", describe(got))));
+            }
+            same_op(op, &ctx.ops[id], body_of(id)).map_err(bad)
+        }
+    }
+}
+
+fn check_get(what: &str, has: bool, got: &Option<Op>, id: &str, ctx: &LineCtx, exp: (bool, bool)) -> Result<(), Fail> {
+    let (present, body) = exp;
+    if has != present {
+        return Err(fail("C09", "has_operation-differs", format!("{what}({id}): has = {has}, the model says {present}")));
+    }
+    match got {
+        None if !present => Ok(()),
+        None => Err(fail("C09", "get_operation-differs", format!("{what}({id}) = None, the model has the operation"))),
+        Some(_) if !present => Err(fail("C09", "get_operation-differs", format!("{what}({id}) = Some, the model has no such operation"))),
+        Some(op) => same_op(op, &ctx.ops[id], body).map_err(|d| fail("C09", "get_operation-differs", format!("{what}({id}): {d}"))),
+    }
+}
+
+fn check_entries(
+    got: &Option<Vec<(Op, Vec<u8>)>>,
+    ids: &[&str],
+    ctx: &LineCtx,
+    body_of: &dyn Fn(&str) -> bool,
+) -> Result<(), String> {
+    match got {
+        None if ids.is_empty() => Ok(()),
+        None => Err(format!("None, the model says {ids:?}")),
+        // Some(empty list) is accepted as a rendering of the empty list (spec: EntriesAnswerOK)
+        Some(v) if v.is_empty() && ids.is_empty() => Ok(()),
+        Some(v) => {
+            let mut seen: Vec<String> = Vec::new();
+            let mut last: Option<SeqNum> = None;
+            for (op, bytes) in v {
+                let Some(id) = ctx.by_hash.get(&op.hash) else {
+                    return Err(format!("unknown operation {}", op.hash));
+                };
+                let info = &ctx.ops[id];
+                same_op(op, info, body_of(id))?;
+                if *bytes != info.op.header.to_bytes() {
+                    return Err(format!("header bytes of {id} differ from the encoded header"));
+                }
+                if last.is_some_and(|p| p > info.seq) {
+                    return Err(format!("not ordered by seq_num at {id}"));
+                }
+                last = Some(info.seq);
+                seen.push(id.clone());
+            }
+            let mut a: Vec<String> = seen.clone();
+            a.sort();
+            let mut b: Vec<String> = ids.iter().map(|s| s.to_string()).collect();
+            b.sort();
+            if a != b {
+                return Err(format!("{seen:?}, the model says {ids:?}"));
+            }
+            Ok(())
+        }
+    }
+}
+
+fn replay(args: &Args) {
+    let behaviours = read_ndjson(args.input.as_ref().expect("--in"));
+    let threads = args.extra_usize("threads", 4).max(1);
+    let mut out = Outcome::new(
+        args,
+        "every TLC-exported command sequence executed on a real in-memory SqliteStore (signed operations, CBOR, SQL): \
+         return value of every command and every exported query of the last state compared (plus the _tx query variants \
+         inside the last command's transaction); non-trivial = a ranged query with a non-empty expected answer, a non-empty \
+         topic resolution or a present cursor; distinct by (query, expected answer)",
+    );
+    let chunk = behaviours.len().div_ceil(threads).max(1);
+    let tallies: Vec<Tally> = std::thread::scope(|scope| {
+        let handles: Vec<_> = behaviours
+            .chunks(chunk)
+            .map(|lines| {
+                scope.spawn(move || {
+                    let mut tally = Tally::default();
+                    let mut sut = Sut::new();
+                    for line in lines {
+                        tally.lines += 1;
+                        sut.clear();
+                        if let Err(f) = replay_line(&sut, line, &mut tally) {
+                            // a command failed: the behaviour ends there
+                            let panicked = f.signature.ends_with("-panics");
+                            tally.fails.push((f, line.clone()));
+                            if panicked {
+                                sut = Sut::new(); // a transaction may be left open
+                            }
+                        }
+                        // one report per failure class and behaviour
+                        let mut seen = BTreeSet::new();
+                        for f in std::mem::take(&mut tally.soft) {
+                            if seen.insert(f.signature.clone()) {
+                                tally.fails.push((f, line.clone()));
+                            }
+                        }
+                    }
+                    tally
+                })
+            })
+            .collect();
+        handles.into_iter().map(|h| h.join().expect("replay thread")).collect()
+    });
+    for t in tallies {
+        out.evaluations += t.lines;
+        out.count_by("commands", t.commands);
+        out.count_by("queries", t.queries);
+        out.count_by("tx_queries", t.tx_queries);
+        for (k, v) in t.counters {
+            out.count_by(&k, v);
+        }
+        for d in t.distinct {
+            out.mark_distinct(d);
+        }
+        for (f, line) in t.fails {
+            out.violation(f.property, &f.signature, f.detail, line);
+        }
+    }
+    if let Some(b) = behaviours.iter().find(|b| b["steps"].as_array().is_some_and(|s| s.len() >= 3)) {
+        out.sample(json!({"steps": b["steps"]}));
+    }
+    out.write(args);
+}
+
+// ------------------------------------------------------------------------------------------
+// impl -> spec
+
+struct RecOp {
+    label: String,
+    info: OpInfo,
+    body: bool,
+}
+
+const BIG_SEQS: [SeqNum; 8] = [9, 10, 11, 99, 100, 65_535, 65_536, 2_147_483_646];
+
+/// Logged value of an optional bound.  All recorded seq_nums are <= 2^31-2, so every bound
+/// above 2^31-1 selects exactly what 2^31-1 selects; TLC integers are 32 bit.
+fn log_bound(b: Option<SeqNum>) -> i64 {
+    match b {
+        None => -1,
+        Some(x) => (x as i64).min(i32::MAX as i64),
+    }
+}
+
+fn record(args: &Args) {
+    let mut rng = Rng::new(args.seed);
+    let runs = if args.n > 0 { args.n } else { 20 };
+    let what = args.extra.get("what").cloned().unwrap_or_else(|| "all".to_string());
+    let steps_per_run = args.extra_usize("steps", 120);
+    let mut trace = TraceWriter::create(args.out.as_ref().expect("--out"));
+    let mut out = Outcome::new(
+        args,
+        "seeded random command sequences (inserts incl. re-inserts, forks, body-less and large seq_nums, deletes, payload \
+         deletions, prunes, topic associations, cursor writes) on a real in-memory SqliteStore; every command's return \
+         value and the results of a few queries after it (boundary-biased ranges, arbitrary log lists incl. empty / \
+         duplicate / unknown) are recorded; distinct = (run, command index)",
+    );
+    let mut failed: Vec<(Fail, Value)> = Vec::new();
+    for run in 0..runs {
+        let sut = Sut::new();
+        trace.event(json!({"ev": "Reset", "run": run}));
+        if let Err((f, case)) = record_run(&sut, &mut rng, &mut trace, &mut out, &what, steps_per_run, run) {
+            failed.push((f, case));
+        }
+    }
+    for (f, case) in failed {
+        out.violation(f.property, &format!("recorded:{}", f.signature), f.detail, case);
+    }
+    let (events, runs) = trace.finish();
+    out.set_trace(events, runs);
+    out.write(args);
+}
+
+fn pick_bound(rng: &mut Rng, seqs: &[SeqNum]) -> Option<SeqNum> {
+    match rng.below(10) {
+        0 | 1 | 2 => None,
+        3 => Some(0),
+        4 => Some(u32::MAX),
+        5 => Some(*rng.pick(&BIG_SEQS)),
+        _ if seqs.is_empty() => Some(rng.below(4) as SeqNum),
+        _ => {
+            let s = *rng.pick(seqs);
+            match rng.below(3) {
+                0 => Some(s),
+                1 => Some(s.saturating_sub(1)),
+                _ => Some(s + 1),
+            }
+        }
+    }
+}
+
+#[allow(clippy::too_many_arguments)]
+fn record_run(
+    sut: &Sut,
+    rng: &mut Rng,
+    trace: &mut TraceWriter,
+    out: &mut Outcome,
+    what: &str,
+    steps: usize,
+    run: usize,
+) -> Result<(), (Fail, Value)> {
+    let store = &sut.store;
+    let n_auth = rng.range(1, 4) as usize;
+    let n_logs = rng.range(1, 4) as usize;
+    let authors: Vec<String> = (1..=n_auth).map(|i| format!("a{i}")).collect();
+    let logs: Vec<String> = (1..=n_logs).map(|i| format!("l{i}")).collect();
+    let topics: Vec<String> = (1..=rng.range(1, 3)).map(|i| format!("t{i}")).collect();
+    let cursor_names: Vec<String> = (1..=rng.range(1, 3)).map(|i| format!("c{i}")).collect();
+    let keys: BTreeMap<String, VerifyingKey> = authors.iter().map(|a| (a.clone(), signing_key(a).verifying_key())).collect();
+    let names: BTreeMap<VerifyingKey, String> = keys.iter().map(|(n, k)| (*k, n.clone())).collect();
+    let with_ops = what != "collections-only";
+    let with_coll = what != "logs";
+
+    let mut pool: Vec<RecOp> = Vec::new(); // every operation ever created in this run
+    let mut by_hash: BTreeMap<Hash, usize> = BTreeMap::new();
+    let mut history: Vec<Value> = Vec::new(); // for the replayable case of a failure
+
+    macro_rules! bail {
+        ($f:expr) => {{
+            let f: Fail = $f;
+            return Err((f, json!({"kind": "recorded-run", "run": run, "events": history})));
+        }};
+    }
+    macro_rules! tryf {
+        ($e:expr) => {
+            match $e {
+                Ok(v) => v,
+                Err(f) => bail!(f),
+            }
+        };
+    }
+
+    for step in 0..steps {
+        // ---------------------------------------------------------------- command
+        let mut touched_author = rng.pick(&authors).clone();
+        let touched_log = rng.pick(&logs).clone();
+        let mut touched_id: Option<usize> = None;
+        let family = if with_ops && with_coll {
+            if rng.chance(7, 10) { 0 } else { 1 }
+        } else if with_ops {
+            0
+        } else {
+            1
+        };
+        let ev = if family == 0 {
+            match rng.below(20) {
+                0..=11 => {
+                    // insert: a new operation, a fork, or a re-insert of a known one (maybe other log)
+                    let idx = if !pool.is_empty() && rng.chance(1, 6) {
+                        rng.below(pool.len() as u64) as usize
+                    } else {
+                        let (author, seq) = if !pool.is_empty() && rng.chance(1, 8) {
+                            let o = &pool[rng.below(pool.len() as u64) as usize];
+                            (o.info.author.clone(), o.info.seq) // fork
+                        } else {
+                            let seq = if rng.chance(1, 6) { *rng.pick(&BIG_SEQS) } else { rng.below(9) as SeqNum };
+                            (touched_author.clone(), seq)
+                        };
+                        let (pay, body) = match rng.below(8) {
+                            0 => (0, false),
+                            1 => (0, true), // empty body stored with the row
+                            2 => (rng.range(1, 40) as u32, false), // payload declared, not present
+                            _ => (rng.range(1, 40) as u32, true),
+                        };
+                        let label = format!("o{}", pool.len());
+                        let op = build_op(&format!("run{run}-{label}"), &author, seq, pay, body, rng.below(30) as usize);
+                        let hdr = op.header.to_bytes().len() as u32;
+                        by_hash.insert(op.hash, pool.len());
+                        pool.push(RecOp { label, info: OpInfo { op, author, seq, pay, hdr }, body });
+                        pool.len() - 1
+                    };
+                    let o = &pool[idx];
+                    touched_author = o.info.author.clone();
+                    touched_id = Some(idx);
+                    let ask = TxAsk {
+                        latest: vec![(keys[&touched_author], touched_log.clone())],
+                        get: vec![o.info.op.hash],
+                    };
+                    let r = sut.call(in_tx(store, &ask, store.insert_operation(&o.info.op.hash, &o.info.op, &touched_log)));
+                    let (ret, _obs) = tryf!(settle("C09", "insert_operation", r));
+                    json!({"ev": "InsertOperation", "id": o.label, "a": o.info.author, "l": touched_log, "seq": o.info.seq,
+                           "hdr": o.info.hdr, "pay": o.info.pay, "body": o.body, "ret": ret as u64})
+                }
+                12..=14 => {
+                    if pool.is_empty() {
+                        continue;
+                    }
+                    let idx = rng.below(pool.len() as u64) as usize;
+                    let o = &pool[idx];
+                    touched_author = o.info.author.clone();
+                    touched_id = Some(idx);
+                    let r = sut.call(in_tx(
+                        store,
+                        &TxAsk::default(),
+                        <LS as OperationStore<Op, Hash>>::delete_operation(store, &o.info.op.hash),
+                    ));
+                    let (ret, _) = tryf!(settle("C09", "delete_operation", r));
+                    json!({"ev": "DeleteOperation", "id": o.label, "ret": ret as u64})
+                }
+                15..=17 => {
+                    if pool.is_empty() {
+                        continue;
+                    }
+                    let idx = rng.below(pool.len() as u64) as usize;
+                    let o = &pool[idx];
+                    touched_author = o.info.author.clone();
+                    touched_id = Some(idx);
+                    let ret = tryf!(settle("C09", "delete_operation_payload", sut.call(c_delete_payload(store, &o.info.op.hash))));
+                    json!({"ev": "DeleteOperationPayload", "id": o.label, "ret": ret as u64})
+                }
+                _ => {
+                    let seqs: Vec<SeqNum> = pool.iter().filter(|o| o.info.author == touched_author).map(|o| o.info.seq).collect();
+                    let n = pick_bound(rng, &seqs).unwrap_or(0);
+                    let ret = tryf!(settle("C08", "prune_entries", sut.call(c_prune(store, &keys[&touched_author], &touched_log, n))));
+                    json!({"ev": "PruneEntries", "a": touched_author, "l": touched_log, "n": log_bound(Some(n)), "ret": ret})
+                }
+            }
+        } else {
+            match rng.below(10) {
+                0..=3 => {
+                    let t = rng.pick(&topics).clone();
+                    let r = sut.call(in_tx(
+                        store,
+                        &TxAsk::default(),
+                        <LS as TopicStore<TopicName, VerifyingKey, LogName>>::associate(store, &t, &keys[&touched_author], &touched_log),
+                    ));
+                    let (ret, _) = tryf!(settle("C09", "associate", r));
+                    json!({"ev": "Associate", "t": t, "a": touched_author, "l": touched_log, "ret": ret as u64})
+                }
+                4..=5 => {
+                    let t = rng.pick(&topics).clone();
+                    let r = sut.call(in_tx(
+                        store,
+                        &TxAsk::default(),
+                        <LS as TopicStore<TopicName, VerifyingKey, LogName>>::remove(store, &t, &keys[&touched_author], &touched_log),
+                    ));
+                    let (ret, _) = tryf!(settle("C09", "remove", r));
+                    json!({"ev": "Remove", "t": t, "a": touched_author, "l": touched_log, "ret": ret as u64})
+                }
+                6..=8 => {
+                    let n = rng.pick(&cursor_names).clone();
+                    let mut state: LogHeights<VerifyingKey, LogName> = LogHeights::new();
+                    for a in &authors {
+                        if rng.chance(1, 2) {
+                            let e = state.entry(keys[a]).or_default();
+                            for l in &logs {
+                                if rng.chance(1, 2) {
+                                    e.insert(l.clone(), if rng.chance(1, 5) { *rng.pick(&BIG_SEQS) } else { rng.below(12) as SeqNum });
+                                }
+                            }
+                        }
+                    }
+                    let cursor = Cursor::<VerifyingKey, LogName>::new(&n, state);
+                    let r = sut.call(in_tx(
+                        store,
+                        &TxAsk::default(),
+                        <LS as CursorStore<VerifyingKey, LogName>>::set_cursor(store, &cursor),
+                    ));
+                    tryf!(settle("C09", "set_cursor", r));
+                    let (au, hs) = cursor_flat(cursor.state(), &names);
+                    json!({"ev": "SetCursor", "n": n, "authors": au, "heights": hs, "ret": 0})
+                }
+                _ => {
+                    let n = rng.pick(&cursor_names).clone();
+                    let r = sut.call(in_tx(
+                        store,
+                        &TxAsk::default(),
+                        <LS as CursorStore<VerifyingKey, LogName>>::delete_cursor(store, &n),
+                    ));
+                    tryf!(settle("C09", "delete_cursor", r));
+                    json!({"ev": "DeleteCursor", "n": n, "ret": 0})
+                }
+            }
+        };
+        out.eval();
+        out.mark_distinct(format!("{run}:{step}"));
+        out.count(ev["ev"].as_str().unwrap());
+        history.push(ev.clone());
+        trace.event(ev);
+
+        // ---------------------------------------------------------------- queries after it
+        let mut qs: Vec<Value> = Vec::new();
+        let n_q = rng.range(3, 6);
+        for qi in 0..n_q {
+            // the first queries look at what the command touched, the rest anywhere
+            let (an, ln) = if qi < 2 {
+                (touched_author.clone(), touched_log.clone())
+            } else {
+                (rng.pick(&authors).clone(), rng.pick(&logs).clone())
+            };
+            let a = keys[&an];
+            let seqs: Vec<SeqNum> = pool.iter().filter(|o| o.info.author == an).map(|o| o.info.seq).collect();
+            let kind = if family == 0 { rng.below(6) } else { 6 + rng.below(2) };
+            match kind {
+                0 => {
+                    let got = tryf!(settle("C08", "get_latest_entry", sut.call(q_latest(store, &a, &ln))));
+                    let id = match &got {
+                        None => String::new(),
+                        Some(op) => match by_hash.get(&op.hash) {
+                            Some(i) => {
+                                // header round trip is concrete: checked here, not in TLA+
+                                if op.header != pool[*i].info.op.header {
+                                    bail!(fail("C08", "get_latest_entry-differs", format!("header of {} differs", pool[*i].label)));
+                                }
+                                pool[*i].label.clone()
+                            }
+                            None => bail!(fail("C08", "get_latest_entry-differs", format!("unknown operation {}", op.hash))),
+                        },
+                    };
+                    qs.push(json!({"k": "latest", "a": an, "l": ln, "id": id, "body": got.as_ref().is_some_and(|o| o.body.is_some())}));
+                }
+                1 => {
+                    // any list of logs: random subset, maybe empty, maybe with duplicates / an unknown log
+                    let mut list: Vec<LogName> = logs.iter().filter(|_| rng.chance(1, 2)).cloned().collect();
+                    if rng.chance(1, 5) {
+                        list.clear();
+                    }
+                    if !list.is_empty() && rng.chance(1, 4) {
+                        list.push(list[0].clone());
+                    }
+                    if rng.chance(1, 6) {
+                        list.push("l-unknown".to_string());
+                    }
+                    rng.shuffle(&mut list);
+                    let what = if list.is_empty() { "get_log_heights-empty-list" } else { "get_log_heights" };
+                    let got = tryf!(settle("C08", what, sut.call(q_heights(store, &a, &list))));
+                    let res: Vec<(String, u32)> = got.iter().flatten().map(|(l, h)| (l.clone(), *h)).collect();
+                    qs.push(json!({"k": "heights", "a": an, "logs": list, "none": got.is_none(), "res": res}));
+                }
+                2 | 3 => {
+                    let af = pick_bound(rng, &seqs);
+                    let un = pick_bound(rng, &seqs);
+                    if kind == 2 {
+                        let got = tryf!(settle("C08", "get_log_entries", sut.call(q_entries(store, &a, &ln, af, un))));
+                        let mut ids: Vec<String> = Vec::new();
+                        let mut bodies: Vec<bool> = Vec::new();
+                        for (op, bytes) in got.iter().flatten() {
+                            let Some(i) = by_hash.get(&op.hash) else {
+                                bail!(fail("C08", "get_log_entries-differs", format!("unknown operation {}", op.hash)));
+                            };
+                            let o = &pool[*i];
+                            if op.header != o.info.op.header || *bytes != o.info.op.header.to_bytes() {
+                                bail!(fail("C08", "get_log_entries-differs", format!("header (bytes) of {} differ from what was inserted", o.label)));
+                            }
+                            if let Some(b) = &op.body
+                                && Some(b) != o.info.op.body.as_ref()
+                            {
+                                bail!(fail("C08", "get_log_entries-differs", format!("body bytes of {} differ", o.label)));
+                            }
+                            ids.push(o.label.clone());
+                            bodies.push(op.body.is_some());
+                        }
+                        qs.push(json!({"k": "entries", "a": an, "l": ln, "af": log_bound(af), "un": log_bound(un),
+                                       "none": got.is_none(), "ids": ids, "bodies": bodies}));
+                    } else {
+                        let got = tryf!(settle("C08", "get_log_size", sut.call(q_size(store, &a, &ln, af, un))));
+                        let (n, bytes) = got.unwrap_or((0, 0));
+                        qs.push(json!({"k": "size", "a": an, "l": ln, "af": log_bound(af), "un": log_bound(un),
+                                       "none": got.is_none(), "n": n, "bytes": bytes}));
+                    }
+                }
+                4 | 5 => {
+                    // has / get of the touched operation or any known one
+                    if pool.is_empty() {
+                        continue;
+                    }
+                    let idx = match touched_id {
+                        Some(i) if qi < 2 => i,
+                        _ => rng.below(pool.len() as u64) as usize,
+                    };
+                    let o = &pool[idx];
+                    let has = tryf!(settle("C09", "has_operation", sut.call(q_has(store, &o.info.op.hash))));
+                    let got = tryf!(settle("C09", "get_operation", sut.call(q_get(store, &o.info.op.hash))));
+                    if let Some(op) = &got {
+                        // "reading it back returns the same header, body and id" (bytes: checked here)
+                        if op.hash != o.info.op.hash || op.header != o.info.op.header {
+                            bail!(fail("C09", "get_operation-differs", format!("id/header of {} differ from what was inserted", o.label)));
+                        }
+                        if let Some(b) = &op.body
+                            && Some(b) != o.info.op.body.as_ref()
+                        {
+                            bail!(fail("C09", "get_operation-differs", format!("body bytes of {} differ", o.label)));
+                        }
+                    }
+                    qs.push(json!({"k": "get", "id": o.label, "has": has, "present": got.is_some(),
+                                   "body": got.as_ref().is_some_and(|g| g.body.is_some())}));
+                }
+                6 => {
+                    let t = rng.pick(&topics).clone();
+                    let got = tryf!(settle("C09", "resolve", sut.call(q_resolve(store, &t))));
+                    let mut pairs: Vec<(String, String)> = Vec::new();
+                    for (k, ls) in &got {
+                        for l in ls {
+                            pairs.push((names.get(k).cloned().unwrap_or_else(|| k.to_hex()), l.clone()));
+                        }
+                    }
+                    qs.push(json!({"k": "resolve", "t": t, "pairs": pairs}));
+                }
+                _ => {
+                    let n = rng.pick(&cursor_names).clone();
+                    let got = tryf!(settle("C09", "get_cursor", sut.call(q_cursor(store, &n))));
+                    match &got {
+                        None => qs.push(json!({"k": "cursor", "n": n, "present": false, "authors": [], "heights": []})),
+                        Some(c) => {
+                            if c.name() != n {
+                                bail!(fail("C09", "get_cursor-differs", format!("cursor read under {n} is named {}", c.name())));
+                            }
+                            let (au, hs) = cursor_flat(c.state(), &names);
+                            qs.push(json!({"k": "cursor", "n": n, "present": true, "authors": au, "heights": hs}));
+                        }
+                    }
+                }
+            }
+        }
+        let ev = json!({"ev": "Queries", "q": qs});
+        history.push(ev.clone());
+        trace.event(ev);
+    }
+    out.sample(json!({"run": run, "first_events": history.iter().take(4).collect::<Vec<_>>()}));
+    Ok(())
 }
